@@ -15,6 +15,10 @@ from mc.compare import num_eq, proj_eq, proj_eq_batch
 from mc.core import family, lattice
 
 REAL_GENS = ["shear", "swap", "proj", "det2", "detm3", "rot345", "trans", "proj2", "det2@int", "detm3@int", "proj2@int", "trans@int", "corner0"]
+# similarities with factor 1e-3 / 1e3 (determinant 1e-9 / 1e9 in 3D): used for the incidence of points with lines, planes and
+# quadrics only. Joins and meets of objects scaled like this fall below the library's absolute 1e-8 tolerance on the pinned
+# tree (three points with coordinates 1e-3 are "dependent"), which section 8 of DESIGN.md declares outside the bounds.
+SCALE_GENS = ["contract", "expand"]
 
 
 def to_ints(v):
@@ -146,6 +150,10 @@ def enum_incidence(tier, seed):
         yield ("3d:plane-point", g)
         yield ("3d:line-point", g)
         yield ("3d:plane-line", g)
+    for g in SCALE_GENS:
+        yield ("2d:line-point", g)
+        yield ("3d:plane-point", g)
+        yield ("3d:line-point", g)
 
 
 @family("C07", "incidence", enum_incidence)
@@ -238,7 +246,7 @@ QUADRICS3 = [
 
 
 def enum_quadric(tier, seed):
-    for g in REAL_GENS:
+    for g in REAL_GENS + SCALE_GENS:
         for dim in (2, 3):
             for dual in (False, True):
                 yield (dim, g, dual)
